@@ -389,9 +389,17 @@ def gen_history(rng, tier="quick", exact=None, allow=None, fees=None, nmax=None)
     forced = ["open", "add", "reduce", "close", "flip"]
     rng.shuffle(forced)
     for i in range(n):
-        t += rng.choice([0, 1_000_000, 3600_000_000, DAY, 3 * DAY, 30 * DAY])
+        # several operations often share one timestamp (quotes of one bar, a valuation between two of them)
+        t += rng.choice([0, 0, 0, 1_000_000, 3600_000_000, DAY, 3 * DAY, 30 * DAY])
         u = rng.random()
         k = rng.choice(keys)
+        if rng.random() < 0.06 and "q" in allow and "nlv" in allow:
+            # a burst inside one bar: quote, valuation, another quote with the same stamp, valuation
+            for _ in range(2):
+                mids[k], b, a = gen_price(rng, exact, mids[k])
+                ops.append(["q", k, t, fr(b), fr(a)])
+                ops.append(["nlv", rng.choice([0, 0, 1])] if rng.random() < 0.8 else ["weights"])
+            continue
         if u < 0.25 and "q" in allow:
             mids[k], b, a = gen_price(rng, exact, mids[k])
             ops.append(["q", k, t, fr(b), fr(a)])
